@@ -510,6 +510,45 @@ def extra_cases():
         a = rn(g, *batch, n, n, dtype=dt)
         return O.DenseLinearOperator(a), a.clone()
 
+    def cat_rows_square(g, dt, batch, n):
+        # square concatenations: CatLinearOperator._diagonal for cat_dim -2 / -1
+        k = n + 1
+        a, b = rn(g, *batch, 1, k, dtype=dt), rn(g, *batch, n, k, dtype=dt)
+        D, Dd = diag(g, dt, batch, k)
+        return O.CatLinearOperator(O.DenseLinearOperator(a), O.DenseLinearOperator(b), dim=-2) if n % 2 else \
+            O.CatLinearOperator(O.DenseLinearOperator(a), D[..., :n, :], dim=-2), torch.cat([a, b if n % 2 else Dd[..., :n, :]], -2)
+
+    def cat_cols_square(g, dt, batch, n):
+        k = n + 2
+        a, b = rn(g, *batch, k, 2, dtype=dt), rn(g, *batch, k, n, dtype=dt)
+        return O.CatLinearOperator(O.DenseLinearOperator(a), O.DenseLinearOperator(b), dim=-1), torch.cat([a, b], -1)
+
+    def interp_root(g, dt, batch, n):
+        # InterpolatedLinearOperator over RootLinearOperator(Dense): special branch of _diagonal
+        m = n + 1
+        r = rn(g, *batch, m, 2, dtype=dt)
+        li = torch.randint(0, m, (*batch, n, 2), generator=g)
+        ri = torch.randint(0, m, (*batch, n, 2), generator=g)
+        lv, rv = rn(g, *batch, n, 2, dtype=dt), rn(g, *batch, n, 2, dtype=dt)
+        return (O.InterpolatedLinearOperator(O.RootLinearOperator(r), li, lv, ri, rv),
+                interp_matrix(li, lv, m) @ (r @ r.mT) @ interp_matrix(ri, rv, m).mT)
+
+    def kernel_square(g, dt, batch, n):
+        x1 = rn(g, *batch, n, 2, dtype=dt)
+        x2 = x1 + 0.25 * rn(g, *batch, n, 2, dtype=dt)
+        ls = rn(g, *batch, dtype=dt).abs() + 0.7 if batch else torch.tensor(0.9, dtype=dt)
+        return (O.KernelLinearOperator(x1, x2, covar_func=zoo._rbf, lengthscale=ls, num_nonbatch_dimensions={"lengthscale": 0}),
+                zoo._rbf(x1, x2, ls))
+
+    def matmul_toeplitz_square(g, dt, batch, n):
+        T, Td = toep(g, dt, batch, n)
+        a = rn(g, *batch, n, n, dtype=dt)
+        return O.MatmulLinearOperator(T, O.DenseLinearOperator(a)), Td @ a
+
+    def matmul_unbatched_right(g, dt, batch, n):
+        a, b = rn(g, *batch, n, n + 1, dtype=dt), rn(g, n + 1, n, dtype=dt)
+        return O.MatmulLinearOperator(O.DenseLinearOperator(a), O.DenseLinearOperator(b)), a @ b
+
     return [
         Case("x_cat3_rows", "CatLinearOperator", cat3_rows, square=False),
         Case("x_cat3_cols", "CatLinearOperator", cat3_cols, square=False),
@@ -536,6 +575,12 @@ def extra_cases():
         Case("x_interp_of_kron", "nested", interp_of_kron, square=False),
         Case("x_getitem_history", "nested", getitem_history, square=False),
         Case("x_dense_square", "DenseLinearOperator", dense_sq),
+        Case("x_cat_rows_square", "CatLinearOperator", cat_rows_square),
+        Case("x_cat_cols_square", "CatLinearOperator", cat_cols_square),
+        Case("x_interp_root", "nested", interp_root),
+        Case("x_kernel_square", "KernelLinearOperator", kernel_square),
+        Case("x_matmul_toeplitz_square", "nested", matmul_toeplitz_square),
+        Case("x_matmul_unbatched_right", "MatmulLinearOperator", matmul_unbatched_right),
     ]
 
 
@@ -544,9 +589,10 @@ EXTRA_NAMES = [
     "x_batchrepeat_cat", "x_kron_toeplitz_diag", "x_constmul_batchconst_kron", "x_matmul_toeplitz_dense", "x_sum_bcast", "x_matmul_bcast",
     "x_kron_bcast", "x_interp_bcast", "x_masked_toeplitz", "x_addeddiag_toeplitz_const", "x_sum3_dense_kron_zero", "x_zero_square",
     "x_constmul_blockinter", "x_sumbatch_interp", "x_tri_of_blockdiag", "x_interp_of_kron", "x_getitem_history", "x_dense_square",
+    "x_cat_rows_square", "x_cat_cols_square", "x_interp_root", "x_kernel_square", "x_matmul_toeplitz_square", "x_matmul_unbatched_right",
 ]
 
-CAT_DIM = {"cat_cols": -1, "cat_rows": -2, "x_cat3_rows": -2, "x_cat3_cols": -1, "x_cat_batch_inner": -3}
+CAT_DIM = {"cat_cols": -1, "cat_rows": -2, "x_cat3_rows": -2, "x_cat3_cols": -1, "x_cat_batch_inner": -3, "x_cat_rows_square": -2, "x_cat_cols_square": -1}
 
 
 def all_instances(tier, names, dtypes=None, batches=None, sizes=None):
@@ -750,7 +796,7 @@ RTC_META = {
     "assumptions": ["torch's own indexing of the dense oracle defines the expected result (indices torch rejects are skipped, see C19)",
                     "zoo oracle D(op) (contracts/zoo.py + extra nested/broadcast cases in rtc_C03.extra_cases)",
                     "values compared with the zoo tolerance (float64 4e-9, float32 8e-4 relative to max|D|): indexing may recompute entries"],
-    "families": "52 zoo cases + 25 extra nested / broadcasting-batch cases x dtypes {f32,f64} x batch shapes {(),(2,),(1,),(2,3)} (+(1,2),(3,1,2) thorough) "
+    "families": "52 zoo cases + 31 extra nested / broadcasting-batch cases x dtypes {f32,f64} x batch shapes {(),(2,),(1,),(2,3)} (+(1,2),(3,1,2) thorough) "
                 "x sizes {1,2,4,6} (+3,9 thorough); per instance: every index atom (8 ints, <=31 slices, 0-d/1-d tensors, lists) in every "
                 "position (singles, also behind/before an Ellipsis and as bare index), a stratified rotating 1/k sample of all atom pairs in all "
                 "position pairs (40 quick / 160 thorough per instance), seeded random full-rank tuples (16 / 60), an Ellipsis in every position of "
